@@ -333,7 +333,7 @@ func (fa *FnAnalysis) nonNil(st *State, v ssa.Value) (bool, bool) {
 	if t.K == "C" {
 		return t.S != "nil", true
 	}
-	return st.get(aNN, t)
+	return fa.knownTerm(st, aNN, t)
 }
 
 func fieldName(f *ssa.FieldAddr) string {
@@ -790,21 +790,22 @@ func (fa *FnAnalysis) transferCall(st *State, in ssa.Instruction, c *ssa.CallCom
 		return
 	}
 	if c.IsInvoke() {
+		// user-supplied interface implementations (Operator, Stringer, ...) and the
+		// standard reflect.Type are assumed not to mutate the structures they are
+		// called from (stated assumption: user code is opaque and excluded)
 		name := c.Method.FullName()
-		if !(isPureExternal(name) || aliasExternal[name]) {
-			fa.bump(st, in)
-			st.heap = map[string]heapCell{}
-		}
 		fa.externalPost(st, v, name)
 		return
 	}
 	callee := e.p.callee(c)
 	if callee == nil {
-		fa.bump(st, in)
-		st.heap = map[string]heapCell{}
+		// dynamic call of a user closure: same assumption
 		return
 	}
 	if e.p.inPkg(callee) {
+		if v != nil {
+			st.cep[v] = st.epoch
+		}
 		if !e.eff.pure(callee) {
 			fa.bump(st, in)
 			var locs []string
@@ -990,9 +991,21 @@ func (fa *FnAnalysis) buildSummary() *Summary {
 		}
 		for _, s := range states {
 			rc := RetCase{}
+			pure := fa.e.eff.pure(fa.fn)
 			for _, f := range s.facts {
-				if f.T.paramRooted() && f.T.mentionsParam() {
+				if f.T.summaryRooted(pure) && f.T.mentionsParam() {
 					rc.Facts = append(rc.Facts, f)
+				}
+			}
+			// facts about the embedded pointer of Stack/Condition results
+			for k := 0; k < nres && k < len(rs.ret.Results); k++ {
+				rv := rs.ret.Results[k]
+				if fa.e.p.isNamed(rv.Type(), "Stack") || fa.e.p.isNamed(rv.Type(), "Condition") {
+					ft := fa.e.tt.mk(Term{K: "F", A: fa.term(s, rv), N: 0})
+					if v, ok := fa.knownTerm(s, aNN, ft); ok {
+						rt := fa.e.tt.mk(Term{K: "F", A: fa.e.tt.mk(Term{K: "R", N: k}), N: 0})
+						rc.Facts = append(rc.Facts, Fact{aNN, rt, v})
+					}
 				}
 			}
 			sort.Slice(rc.Facts, func(i, j int) bool {
@@ -1002,7 +1015,7 @@ func (fa *FnAnalysis) buildSummary() *Summary {
 				rv := rs.ret.Results[k]
 				d := ResDesc{Kind: '?'}
 				t := fa.term(s, rv)
-				if t.paramRooted() {
+				if t.summaryRooted(fa.e.eff.pure(fa.fn)) {
 					d.T = t
 				} else {
 					// a loop-header phi still bound to its entry value
@@ -1077,6 +1090,16 @@ func (fa *FnAnalysis) refineCall(st *State, c *ssa.Call) {
 	}
 	args := fa.argTerms(st, &c.Call)
 	nres := c.Call.Signature().Results().Len()
+	var results []*Term
+	for k := 0; k < nres; k++ {
+		results = append(results, fa.callResultTerm(st, c, k))
+	}
+	epoch := -1
+	if e.eff.pure(callee) {
+		if ep, ok := st.cep[c]; ok {
+			epoch = ep
+		}
+	}
 	type inst struct {
 		facts []Fact
 		res   []ResDesc
@@ -1086,7 +1109,7 @@ func (fa *FnAnalysis) refineCall(st *State, c *ssa.Call) {
 		ok := true
 		var fs []Fact
 		for _, f := range rc.Facts {
-			t := e.tt.subst(f.T, args)
+			t := e.tt.substFull(f.T, args, results, epoch)
 			if t == nil {
 				continue
 			}
@@ -1104,7 +1127,7 @@ func (fa *FnAnalysis) refineCall(st *State, c *ssa.Call) {
 			d := rc.Res[k]
 			rt := fa.callResultTerm(st, c, k)
 			if d.T != nil {
-				d.T = e.tt.subst(d.T, args)
+				d.T = e.tt.substFull(d.T, args, results, epoch)
 			}
 			switch d.Kind {
 			case 'c':
@@ -1211,6 +1234,27 @@ func (fa *FnAnalysis) refineCall(st *State, c *ssa.Call) {
 				agreeKind, agreeB = kind, d.B
 			} else if kind != agreeKind || d.B != agreeB {
 				agree = false
+			}
+		}
+		// all feasible cases return the very same (caller-side) term: alias it
+		if len(feas) > 0 && k < len(feas[0].res) && feas[0].res[k].T != nil {
+			same := true
+			for _, in := range feas[1:] {
+				if k >= len(in.res) || in.res[k].T != feas[0].res[k].T {
+					same = false
+				}
+			}
+			if same && nres == 1 {
+				if _, has := st.terms[c]; !has {
+					// move existing facts about the opaque result onto the alias
+					al := feas[0].res[k].T
+					for _, kind := range []string{aNN, aTR, aVALID, aCANIF} {
+						if v, ok := st.get(kind, rt); ok {
+							fa.addTermFact(st, kind, al, v)
+						}
+					}
+					st.terms[c] = al
+				}
 			}
 		}
 		if agree {
